@@ -4,17 +4,26 @@ use serde_json::Value;
 
 use crate::deploy::{ALICE, BOB, CAROL};
 use crate::engine::{default_cfg, explore, replay_trace, Evidence};
-use crate::scn_dist::{DRoot, DistScn};
+use crate::scn_dist::{DAct, DRoot, DistScn};
 
 pub fn scenario(tier: &str) -> DistScn {
     let mut roots = vec![
-        DRoot { label: "grace1/growth0/fresh".into(), grace: 1, growth_rate: Decimal::zero(), pre_epochs: 0 },
-        DRoot { label: "grace2/growth1e-9/2epochs".into(), grace: 2, growth_rate: Decimal::from_ratio(1u128, 1_000_000_000u128), pre_epochs: 2 },
+        DRoot { label: "grace1/growth0/fresh".into(), grace: 1, growth_rate: Decimal::zero(), pre_epochs: 0, then: vec![] },
+        DRoot { label: "grace2/growth1e-9/2epochs".into(), grace: 2, growth_rate: Decimal::from_ratio(1u128, 1_000_000_000u128), pre_epochs: 2, then: vec![] },
     ];
+    // rounding drift: the global weight is floored at every bonding event, an untouched bond only once, so
+    // after bob's bond the addresses' weights (1001 + 500) exceed the epoch's global weight (1500) by one unit
+    roots.push(DRoot {
+        label: "grace2/growth7e-9/weights-sum-above-global".into(),
+        grace: 2,
+        growth_rate: Decimal::from_ratio(7u128, 1_000_000_000u128),
+        pre_epochs: 1,
+        then: vec![DAct::Bond { user: BOB.into(), amount: 500 }, DAct::Inflow { amount: 1_000_000 }, DAct::Epoch],
+    });
     if tier != "quick" {
-        roots.push(DRoot { label: "grace3/growth0/3epochs".into(), grace: 3, growth_rate: Decimal::zero(), pre_epochs: 3 });
-        roots.push(DRoot { label: "grace1/growth1/1epoch".into(), grace: 1, growth_rate: Decimal::one(), pre_epochs: 1 });
-        roots.push(DRoot { label: "grace5/growth0/2epochs".into(), grace: 5, growth_rate: Decimal::zero(), pre_epochs: 2 });
+        roots.push(DRoot { label: "grace3/growth0/3epochs".into(), grace: 3, growth_rate: Decimal::zero(), pre_epochs: 3, then: vec![] });
+        roots.push(DRoot { label: "grace1/growth1/1epoch".into(), grace: 1, growth_rate: Decimal::one(), pre_epochs: 1, then: vec![] });
+        roots.push(DRoot { label: "grace5/growth0/2epochs".into(), grace: 5, growth_rate: Decimal::zero(), pre_epochs: 2, then: vec![] });
     }
     let users: Vec<String> = if tier == "quick" { vec![ALICE.into(), BOB.into()] } else { vec![ALICE.into(), BOB.into(), CAROL.into()] };
     DistScn { roots, users }
